@@ -540,3 +540,61 @@ CONTRACTS[CI + 'CliffordGate.backward#generator_local_state'] = dict(
     params=[('self', GATE_GEN_L), ('obj', STATE)], requires=_gls_req,
     ensures=_inv_obj_post, modifies=['obj.gs', 'obj.ps'], returns='=obj',
 )
+
+# ------------------------------------------------------------------ C05 / C09: a valid map applied to a SUBSYSTEM of a state keeps the state valid
+_tN, _tn = 'len(mask)', '(%s // 2)' % _cnt
+_tC = lambda row: 'Compress(%s, %s, %s)' % (row, _M2, _n2)
+_tM = 'clifford_map.gs'
+_tT = lambda row: 'OrdGRow(%s, %s, %s)' % (_tC(row), _tM, _cnt)
+_ab = [('a', '0', '2 * len(mask)'), ('b', '0', '2 * len(mask)')]
+_tm_post = CONTRACTS[PA + 'PauliList.transform_by#mask']['ensures']
+CONTRACTS[PA + 'PauliList.transform_by#mask_state'] = dict(
+    params=[('self', STATE), ('clifford_map', CMAP), ('mask', 'bool1')],
+    requires=['cols(self.gs) == 2 * len(mask)', 'inv_state(self.gs, self.ps, self.r, len(mask))',
+              'rows(clifford_map.gs) == %s' % _cnt, 'cols(clifford_map.gs) == %s' % _cnt, 'len(clifford_map.ps) == rows(clifford_map.gs)',
+              'bits2(clifford_map.gs)', 'gram_map(clifford_map.gs, %s)' % _tn,
+              'forall(k, 0, rows(clifford_map.gs), clifford_map.ps[k] == 0 or clifford_map.ps[k] == 2)'],
+    ensures=['rows(self.gs) == 2 * len(mask)', 'cols(self.gs) == 2 * len(mask)', 'len(self.ps) == 2 * len(mask)', 'bits2(self.gs)',
+             'gram(self.gs, len(mask))', 'forall(a, self.r, len(mask), self.ps[a] == 0 or self.ps[a] == 2)', 'same_loc(result, self)',
+             'self.r == old(self.r)'],
+    modifies=['self.gs', 'self.ps'], returns='=self',
+    hints={'return': [
+        ('lemma', 'mask_index', [_M2, _n2]),
+        ('lemma', 'split_acq', ['self.gs[0]', 'self.gs[0]', 'mask', _tN, _tN]),          # parity of the number of selected columns
+        ('assert', '%s %% 2 == 0 and 2 * %s == %s' % (_cnt, _tn, _cnt)),
+        ('assert', _tm_post[3]), ('assert', _tm_post[4]), ('assert', _tm_post[5]),
+        ('assert', 'forall(j, 0, 2 * len(mask), bits(%s, %s))' % (_tC('old(self.gs)[j]'), _cnt)),
+        ('forall_lemma', [('j', '0', '2 * len(mask)'), ('k', '0', _cnt)], 'ordg_bits', [_tC('old(self.gs)[j]'), _tM, _cnt, 'k']),
+        ('assert', 'bits2(self.gs)'),
+        ('assert_from', 'forall(k, 0, len(mask), %s[2 * k] == mask[k] and %s[2 * k + 1] == mask[k])' % (_M2, _M2), []),
+        ('assert_from', 'forall(j, 0, 2 * len(mask), forall(k, 0, len(mask), implies(mask[k] == 0, self.gs[j][2 * k] == old(self.gs)[j][2 * k] and '
+                        'self.gs[j][2 * k + 1] == old(self.gs)[j][2 * k + 1])))',
+         [_tm_post[5], 'forall(k, 0, len(mask), %s[2 * k] == mask[k] and %s[2 * k + 1] == mask[k])' % (_M2, _M2),
+          'rows(self.gs) == 2 * len(mask)', 'cols(self.gs) == 2 * len(mask)']),
+        ('assert_from', 'gram(self.gs, len(mask))',
+         ['gram(old(self.gs), len(mask))', 'rows(self.gs) == 2 * len(mask)', 'len(mask) >= 0',
+          '%s[2 * len(mask)] == %s' % ('MaskPos(%s, %s)' % (_M2, _n2), _cnt), '%s %% 2 == 0' % _cnt,
+          ('forall_lemma', _ab, 'split_acq', ['self.gs[a]', 'self.gs[b]', 'mask', _tN, _tN]),
+          ('forall_lemma', _ab, 'split_acq', ['old(self.gs)[a]', 'old(self.gs)[b]', 'mask', _tN, _tN]),
+          ('forall_lemma', _ab, 'acqout_ext', ['self.gs[a]', 'old(self.gs)[a]', 'self.gs[b]', 'old(self.gs)[b]', 'mask', _tN]),
+          ('forall_lemma', _ab, 'acqsum_ext', [_tC('self.gs[a]'), _tT('old(self.gs)[a]'), _tC('self.gs[b]'), _tn]),
+          ('forall_lemma', _ab, 'acqsum_ext', [_tC('self.gs[b]'), _tT('old(self.gs)[b]'), _tT('old(self.gs)[a]'), _tn]),
+          ('forall_lemma', _ab, 'transform_preserves_acq', [_tC('old(self.gs)[a]'), _tC('old(self.gs)[b]'), _tM, _tn])]),
+        ('assert_from', 'forall(a, self.r, len(mask), self.ps[a] == 0 or self.ps[a] == 2)',
+         [_tm_post[4], 'forall(a, self.r, len(mask), old(self.ps)[a] == 0 or old(self.ps)[a] == 2)', '0 <= self.r', 'self.r == old(self.r)',
+          'rows(self.gs) == 2 * len(mask)', '2 * %s == %s' % (_tn, _cnt),
+          ('forall_lemma', [('j', '0', '2 * len(mask)')], 'ordp_parity', [_tC('old(self.gs)[j]'), _tM, 'clifford_map.ps', _cnt, _tn]),
+          ('forall_lemma', [('j', '0', '2 * len(mask)')], 'xzpartial_full', [_tC('old(self.gs)[j]'), _tn])]),
+    ]},
+)
+
+CONTRACTS[CI + 'CliffordGate.forward#map_local_state'] = dict(
+    params=[('self', GATE_MAP_L), ('obj', STATE)],
+    requires=['self.n != cols(obj.gs) // 2', 'cols(obj.gs) % 2 == 0', 'len(self.qubits) >= 1',
+              'forall(k, 0, len(self.qubits), 0 <= self.qubits[k] < cols(obj.gs) // 2)', _inv_obj,
+              'rows(self.forward_map.gs) == %s' % _cntL, 'cols(self.forward_map.gs) == %s' % _cntL,
+              'len(self.forward_map.ps) == rows(self.forward_map.gs)', 'bits2(self.forward_map.gs)',
+              'gram_map(self.forward_map.gs, %s // 2)' % _cntL,
+              'forall(k, 0, rows(self.forward_map.gs), self.forward_map.ps[k] == 0 or self.forward_map.ps[k] == 2)'],
+    ensures=_inv_obj_post, modifies=['obj.gs', 'obj.ps'], returns='=obj',
+)
